@@ -2,6 +2,7 @@ SPECIFICATION Spec
 CONSTANTS
   Objs = {"o1"}
   HugeAvailable = FALSE
+  DeallocEarlyOut = FALSE
 INVARIANT NoLeak
 INVARIANT CyclesDoNotGrow
 PROPERTY FailureIsClean
